@@ -222,6 +222,47 @@ fn check_a_path(shape: u8, r: u8, masks: &[u8], l: &mut Local) {
     }
 }
 
+/// A resource offered twice under one name: the second offer is rejected by the store and must
+/// leave no trace - neither its permission nor its body. `which` 0: the scriptlet itself is offered
+/// twice; 1: its fn/javascript dependency; 2: the scriptlet is a template the second time.
+fn check_a_rejected(which: u8, r0: u8, r1: u8, m: u8, l: &mut Local) {
+    const REJECTED_P: &str = "function p(){/*body-REJECTED*/}";
+    const REJECTED_F: &str = "function f(){/*body-REJECTED*/}";
+    l.evaluations += 1;
+    l.states += 1;
+    l.transitions += 1;
+    let (res, needed) = match which {
+        0 => (vec![resource("p.js", &[], JS, P_FN_BODY, &[], r0), resource("p.js", &[], JS, REJECTED_P, &[], r1)], r0),
+        1 => (
+            vec![resource("p.js", &[], JS, P_FN_BODY, &["f.js"], 0), resource("f.js", &[], FNJS, F_BODY, &[], r0), resource("f.js", &[], FNJS, REJECTED_F, &[], r1)],
+            r0,
+        ),
+        _ => (vec![resource("p.js", &[], JS, P_FN_BODY, &[], r0), resource("p.js", &[], ResourceType::Template, "tplp();/*body-REJECTED*/", &[], r1)], r0),
+    };
+    let case = json!({"part":"a-rejected","which":which,"r0":r0,"r1":r1,"list":m});
+    let size = which as u64 + r0 as u64 * 4 + r1 as u64 * 16 + m as u64 * 64;
+    let rule: [&str; 1] = ["example.com##+js(p)"];
+    let out = match cosmetic_script(&[(&rule[..], m)], res, "https://example.com/") {
+        Ok(o) => o,
+        Err(loc) => {
+            l.mismatch(Mismatch { sig: format!("c18.perm.rejected.panic@{}", loc), what: format!("panicked at {}", loc), case, size });
+            return;
+        }
+    };
+    l.compared += 1;
+    l.nontrivial += 1;
+    let allowed = mask_ok(needed, m);
+    let injected = out.contains("p()");
+    l.hist(if injected { "a.rejected:injected" } else { "a.rejected:refused" });
+    if out.contains("REJECTED") {
+        l.mismatch(Mismatch { sig: "c18.perm.rejected.body-of-the-rejected-resource-emitted".into(), what: format!("stored resource needs {:#b}, the rejected second offer {:#b}, list granted {:#b}: the script contains the rejected body: {:?}", r0, r1, m, out), case, size });
+    } else if injected != allowed {
+        l.mismatch(Mismatch { sig: format!("c18.perm.rejected.{}", if injected { "unpermitted-injected" } else { "permitted-refused" }), what: format!("stored resource needs {:#b}, the rejected second offer {:#b}, list granted {:#b}: injected = {}", r0, r1, m, injected), case, size });
+    } else if injected && !(out.contains(P_FN_BODY) && (which != 1 || out.contains(F_BODY))) {
+        l.mismatch(Mismatch { sig: "c18.perm.rejected.body-of-the-stored-resource-missing".into(), what: format!("{:?}", out), case, size });
+    }
+}
+
 // ---------------------------------------------------------------------------------------------
 // redirects refuse permissioned resources
 // ---------------------------------------------------------------------------------------------
@@ -1328,6 +1369,7 @@ fn replay(case: &Value, l: &mut Local) {
             let masks: Vec<u8> = case["lists"].as_array().map(|a| a.iter().map(u8_of).collect()).unwrap_or_default();
             check_a_path(u8_of(&case["shape"]), u8_of(&case["res"]), &masks, l)
         }
+        "a-rejected" => check_a_rejected(u8_of(&case["which"]), u8_of(&case["r0"]), u8_of(&case["r1"]), u8_of(&case["list"]), l),
         "redirect" => check_redirect(u8_of(&case["mask"]), case["kind"].as_u64().unwrap_or(0) as usize, l),
         "b" => {
             let g = g_from_json(&case["graph"]);
@@ -1369,6 +1411,8 @@ fn check(ctx: &Ctx) -> i32 {
         let m2 = (i / mbits / mbits) as u8;
         check_a_path(shape, r, &[m1, m2], l)
     });
+    // a second, rejected offer of a stored name: every (stored mask, offered mask, list mask) below 8
+    ctx.par_range("a-rejected", 3 * 8 * 8 * 8, 16, |i, l| check_a_rejected((i / 512) as u8, (i % 8) as u8, (i / 8 % 8) as u8, (i / 64 % 8) as u8, l));
     let nk = kinds().len() as u64;
     ctx.bound("redirect_masks_x_kinds", 256 * nk);
     ctx.par_range("redirect", 256 * nk, 32, |i, l| check_redirect((i / nk) as u8, (i % nk) as usize, l));
